@@ -90,11 +90,13 @@ type TrivApp struct {
 	Reject  map[common.Hash]bool
 	// NextVals, if set for a height, is returned from CommitBlock as the validator list for height+1.
 	NextVals map[uint64][]*types.Validator
+	// Pruned heights answer the Load* queries as a block store does after DeleteHistoricalData: nothing there.
+	Pruned map[uint64]bool
 }
 
 func NewTrivApp(vals []*types.Validator, variant uint64) *TrivApp {
 	return &TrivApp{Vals: vals, Blocks: map[uint64]*types.Block{}, Parts: map[uint64]*types.PartSet{}, Seen: map[uint64]*types.Commit{},
-		Variant: variant, Reject: map[common.Hash]bool{}, NextVals: map[uint64][]*types.Validator{}}
+		Variant: variant, Reject: map[common.Hash]bool{}, NextVals: map[uint64][]*types.Validator{}, Pruned: map[uint64]bool{}}
 }
 
 func (a *TrivApp) Height() uint64 {
@@ -108,26 +110,36 @@ func (a *TrivApp) Height() uint64 {
 }
 func (a *TrivApp) LoadBlockMeta(height uint64) *types.BlockMeta {
 	b := a.Blocks[height]
-	if b == nil {
+	if b == nil || a.Pruned[height] {
 		return nil
 	}
 	return types.NewBlockMeta(b, a.Parts[height])
 }
-func (a *TrivApp) LoadBlock(height uint64) *types.Block { return a.Blocks[height] }
+func (a *TrivApp) LoadBlock(height uint64) *types.Block {
+	if a.Pruned[height] {
+		return nil
+	}
+	return a.Blocks[height]
+}
 func (a *TrivApp) LoadBlockPart(height uint64, index int) *types.Part {
 	// as BlockStore.LoadBlockPart: a part that is not stored (any index outside the stored set) is nil, not a panic
-	if p := a.Parts[height]; p != nil && index >= 0 && index < p.Total() {
+	if p := a.Parts[height]; p != nil && index >= 0 && index < p.Total() && !a.Pruned[height] {
 		return p.GetPart(index)
 	}
 	return nil
 }
 func (a *TrivApp) LoadBlockCommit(height uint64) *types.Commit {
-	if b := a.Blocks[height+1]; b != nil {
+	if b := a.Blocks[height+1]; b != nil && !a.Pruned[height] {
 		return b.LastCommit
 	}
 	return nil
 }
-func (a *TrivApp) LoadSeenCommit(height uint64) *types.Commit     { return a.Seen[height] }
+func (a *TrivApp) LoadSeenCommit(height uint64) *types.Commit {
+	if a.Pruned[height] {
+		return nil
+	}
+	return a.Seen[height]
+}
 func (a *TrivApp) GetValidators(height uint64) []*types.Validator { return a.NextVals[height] }
 func (a *TrivApp) GetRecoverValidators(uint64) []*types.Validator { return a.Vals }
 func (a *TrivApp) SetLastChangedVals(uint64, []*types.Validator)  {}
